@@ -261,8 +261,8 @@ def loop_enter(lid, L, loaded=()):
     _loop_specs[lid].enter(L, loaded)
 
 
-def loop_havoc(lid, name, L):
-    return _loop_specs[lid].havoc(name, L)
+def loop_havoc(lid, name, L, assigned=True):
+    return _loop_specs[lid].havoc(name, L, assigned)
 
 
 def loop_assume(lid, L):
